@@ -72,6 +72,15 @@ pub fn fen_board_event(b: &Board) -> Value {
            "pretty_utf8": text_json(&b.raw().pretty(owlchess::board::PrettyStyle::Utf8).to_string())})
 }
 
+/// The board reached by the NULL move (TryUnchecked; documented as allowed when the side to move is not in
+/// check): side flipped, e.p. mark cleared, counters advanced - a valid position like any other.
+pub fn null_reached(b: &Board) -> Option<Board> {
+    if b.is_check() {
+        return None;
+    }
+    catch(|| b.make_move(unsafe { make::TryUnchecked::new(Move::NULL) })).ok()?.ok()
+}
+
 pub fn fen_raw_event(r: &RawBoard) -> Value {
     let t = r.as_fen();
     json!({"ev": "fen", "kind": "raw", "pos": raw_json(r), "text": text_json(&t), "reparsed": parsed_raw(&t),
